@@ -188,6 +188,49 @@ def arity_cases():
     return out
 
 
+def history_cases():
+    """The sampler's entry point, called twice on one TheJoker: first with the same merged observations divided between two
+    surveys differently, then with the data proper.  Every observation must be tied to the survey it has NOW: the second call's
+    marginal likelihoods equal those of a fresh sampler.  (Surveys are disjoint in time and in time order: not finding D5.)"""
+    import warnings
+
+    import astropy.units as u
+    import pymc as pm
+    import thejoker.units as xu
+    from thejoker.data import RVData
+    from thejoker.prior import JokerPrior
+    from thejoker.thejoker import TheJoker
+
+    out = []
+    for seed in (1, 2, 3):
+        r = np.random.default_rng(800 + seed)
+        n = int(r.integers(5, 9))
+        t = 55000.0 + np.sort(np.round(r.uniform(0, 80, n) * 8) / 8 + np.arange(n))
+        rv = np.round(r.normal(0, 5, n) * 16) / 16
+        err = np.full(n, 0.5)
+        mk = lambda sl: RVData(t[sl], rv[sl] * u.km / u.s, err[sl] * u.km / u.s)
+        k1, k2 = 2, n - 2
+        data, alt = [mk(slice(0, k1)), mk(slice(k1, n))], [mk(slice(0, k2)), mk(slice(k2, n))]
+        with warnings.catch_warnings():
+            warnings.simplefilter("ignore")
+            with pm.Model():
+                dv = xu.with_unit(pm.Normal("dv0_1", 0, 10), u.km / u.s)
+                prior = JokerPrior.default(P_min=2 * u.day, P_max=200 * u.day, sigma_K0=30 * u.km / u.s, sigma_v=50 * u.km / u.s, v0_offsets=[dv])
+            smp = prior.sample(size=16, rng=np.random.default_rng(seed))
+            try:
+                j = TheJoker(prior, rng=np.random.default_rng(0))
+                j.marginal_ln_likelihood(alt, smp, in_memory=True)
+                again = np.asarray(j.marginal_ln_likelihood(data, smp, in_memory=True), float)
+                fresh = np.asarray(TheJoker(prior, rng=np.random.default_rng(0)).marginal_ln_likelihood(data, smp, in_memory=True), float)
+            except Exception as e:
+                out.append((dict(family="history", seed=seed), f"raised {type(e).__name__}: {str(e)[:200]}"))
+                continue
+        if not np.array_equal(again, fresh):
+            out.append((dict(family="history", seed=seed), f"surveys [{k1}+{n - k1} epochs] evaluated after [{k2}+{n - k2}] on the same TheJoker: marginal "
+                        f"ln-likelihoods differ from a fresh sampler's by up to {np.max(np.abs(again - fresh)):.3g} (observations tied to the earlier call's surveys)"))
+    return out
+
+
 def run_cases(ctx, cases):
     terms, kept, nt = [], [], 0
     for c in cases:
@@ -236,11 +279,14 @@ def run(ctx):
     for case, msg in arity_cases():
         ctx.fail("predicate", "C08:arity", msg, case=case)
     n_eval += 19
+    for case, msg in history_cases():
+        ctx.fail("predicate", "C08:history", msg, case=case)
+    n_eval += 3
     ctx.coverage.update(evaluations=n_eval, distinct_nontrivial=nt)
     return ctx.finish(
         rule="2..5 surveys of 1..8 epochs; layouts disjoint / interleaved / identical epochs / reversed / random; list, int-keyed dict and "
         "string-keyed dict in arbitrary key order; second and later sources optionally in m/s; poly_trend 1..3; plus the 4x4 grid of "
-        "(number of sources, number of offset priors). Non-trivial = surveys overlap in time",
+        "(number of sources, number of offset priors); 3 two-call histories on one TheJoker (the same observations divided between the surveys differently, then the data proper). Non-trivial = surveys overlap in time",
         assumptions=["astropy unit conversion of later sources into the first source's unit is trusted (the converted values are the model's inputs)",
                      "numpy.unique orders labels ascending (ints numerically, strings by code point)"],
     )
@@ -250,7 +296,7 @@ def replay(ctx, path):
     payload = json.load(open(path))
     ctx.make_overlay(need_kernel=True)
     case = payload.get("case")
-    if case is None or case.get("family") == "arity":
+    if case is None or case.get("family") in ("arity", "history"):
         return run(ctx)
     ctx.regen_all()
     if ctx.build_models(MODELS):
